@@ -417,7 +417,7 @@ func fromVal(v any) any {
 		two := new(big.Rat).Mul(r, big.NewRat(4, 1))
 		if two.IsInt() && two.Num().IsInt64() {
 			h := two.Num().Int64()
-			if h > -(1<<20) && h < (1<<20) {
+			if h > -(1<<28) && h < (1<<28) {
 				return M{"t": "num", "h": h}
 			}
 		}
